@@ -1,5 +1,6 @@
 import PytezosModel.Proofs.C03Impl
 import PytezosModel.Proofs.C14Coll
+import PytezosModel.Proofs.C03Bridge
 /-!
 # C03 — COMPARE and ordered collections follow the Tezos total order
 
@@ -165,7 +166,34 @@ theorem cty_is_comparable (τ : CTy) : isComparableC τ = some true := by
   | pair l r ihl ihr => simp only [toPrim, isComparable, isComparable.isComparableL, ihl, ihr, Bool.and_true]; decide
   | _ => decide
 
+/-- **text ↔ structure bridge.**  pytezos keeps key_hash / address values as base58check text and compares the text;
+the model compares (kind tag, payload).  For kinds `k₁ k₂` (tz1 tz2 tz3 tz4 KT1 sr1), payloads and checksums that are
+byte strings of equal lengths, and texts of the same number of characters (all these kinds encode to 36 characters: C09),
+`textLt` / `textEq` of the model ARE Python's `<` / `==` on the texts `b58enc (binary prefix ‖ payload ‖ checksum)`
+(the checksum is a function of prefix ‖ payload: `hck`). -/
+theorem text_bridge (k₁ k₂ : Nat) (p₁ p₂ ck₁ ck₂ : List Nat) (h₁ : k₁ < 6) (h₂ : k₂ < 6)
+    (hp₁ : ∀ x ∈ p₁, x < 256) (hp₂ : ∀ x ∈ p₂, x < 256) (hc₁ : ∀ x ∈ ck₁, x < 256) (hc₂ : ∀ x ∈ ck₂, x < 256)
+    (hl : p₁.length = p₂.length) (hcl : ck₁.length = ck₂.length) (hck : k₁ = k₂ → p₁ = p₂ → ck₁ = ck₂)
+    (htl : (Base58.b58enc (binPrefix k₁ ++ p₁ ++ ck₁)).length = (Base58.b58enc (binPrefix k₂ ++ p₂ ++ ck₂)).length) :
+    textLt (pfx k₁) p₁ (pfx k₂) p₂
+      = (lexCmp (Base58.b58enc (binPrefix k₁ ++ p₁ ++ ck₁)) (Base58.b58enc (binPrefix k₂ ++ p₂ ++ ck₂))).isLT
+    ∧ textEq (pfx k₁) p₁ (pfx k₂) p₂
+      = (lexCmp (Base58.b58enc (binPrefix k₁ ++ p₁ ++ ck₁)) (Base58.b58enc (binPrefix k₂ ++ p₂ ++ ck₂)) == .eq) :=
+  textLt_is_string_lt k₁ k₂ p₁ p₂ ck₁ ck₂ h₁ h₂ hp₁ hp₂ hc₁ hc₂ hl hcl hck htl
+
+/-- same statement for one kind with an arbitrary non-empty binary prefix without leading zero byte (chain ids `Net…`,
+and the reason `StringType.__lt__` is right for them): the payload bytes decide -/
+theorem text_bridge_one_kind (pfx' p p' ck ck' : List Nat)
+    (hb : ∀ x ∈ pfx' ++ p ++ ck, x < 256) (hb' : ∀ x ∈ pfx' ++ p' ++ ck', x < 256)
+    (h0 : pfx'.head? ≠ some 0) (hne0 : pfx' ≠ []) (hl : p.length = p'.length) (hcl : ck.length = ck'.length)
+    (htl : (Base58.b58enc (pfx' ++ p ++ ck)).length = (Base58.b58enc (pfx' ++ p' ++ ck')).length) (hne : p ≠ p') :
+    lexCmp (Base58.b58enc (pfx' ++ p ++ ck)) (Base58.b58enc (pfx' ++ p' ++ ck')) = lexCmp p p' :=
+  b58_text_order_same_kind pfx' p p' ck ck' hb hb' h0 hne0 hl hcl htl hne
+
 /-! ### non-vacuity -/
+-- the bridge hypotheses are satisfiable: two real tz1 / KT1 byte strings (prefix ‖ 20 bytes ‖ 4 bytes) of equal text length
+example : (Base58.b58enc (binPrefix 0 ++ List.replicate 20 7 ++ [1, 2, 3, 4])).length
+    = (Base58.b58enc (binPrefix 4 ++ List.replicate 20 200 ++ [9, 9, 9, 9])).length := by decide +kernel
 -- the pinned counter-example: COMPARE (Pair 1 5) (Pair 2 3) is -1 (first components decide)
 example : Impl.Order.compare (.pair (.num .int 1) (.num .int 5)) (.pair (.num .int 2) (.num .int 3)) = some (-1) := by decide
 example : HasTy (.pair (.num .int 1) (.num .int 5)) (.pair (.num .int) (.num .int)) := .pair (.num _ _ rfl) (.num _ _ rfl)
